@@ -86,12 +86,19 @@ DeepHists == Map1A(DeepSrcs, LAMBDA s : <<EvalS(s, ObjIdx("A", "struct"))>>)
                \o Map1A(DeepSrcs, LAMBDA s : <<Compile(1, s, ObjIdx("A", "raw")), Invoke(1, ObjIdx("A", "raw"))>>)
 TotalSrcs == <<SRC_n_plus_1, SRC_syntax_err, SRC_type_err, SRC_lex_err, SRC_xs_n, SRC_deep_idx, SRC_mod0, SRC_key_zz, SRC_bad_regex,
                SRC_if_guard, SRC_union_xs, SRC_print_n, SRC_string_m, SRC_t1_t2, SRC_nested, SRC_m_b>>
+FailSrcs == <<SRC_bad_regex, SRC_deep_idx, SRC_mod0, SRC_key_zz, SRC_syntax_err, SRC_type_err, SRC_lex_err>>
+AfterSrcs == <<SRC_good_match, SRC_good_match2, SRC_n_plus_1, SRC_m_b>>
 TotalHists ==
   Prod2(TotalSrcs, <<ObjIdx("A", "struct"), ObjIdx("A", "map"), ObjIdx("B", "struct"), ObjIdx("G", "map")>>, LAMBDA s, v : <<EvalS(s, v)>>)
     \o Prod2(TotalSrcs, <<ObjIdx("A", "struct"), ObjIdx("A", "map")>>, LAMBDA s, v : <<DebugS(s, v)>>)
     \o Prod3(TotalSrcs, <<ObjIdx("A", "raw"), ObjIdx("A", "struct")>>, <<ObjIdx("A", "raw"), ObjIdx("A", "map"), ObjIdx("B", "struct")>>,
              LAMBDA s, t, v : <<Compile(1, s, t), Invoke(1, v)>>)
 
+    \* after a failure, the same process / engine / callable must keep answering (and answer the same)
+    \o Prod3(FailSrcs, AfterSrcs, <<ObjIdx("A", "struct"), ObjIdx("A", "map")>>, LAMBDA f, g, v : <<EvalS(f, v), EvalS(g, v), EvalS(f, v)>>)
+    \o Prod2(FailSrcs, AfterSrcs, LAMBDA f, g : <<Compile(1, f, ObjIdx("A", "raw")), Invoke(1, ObjIdx("A", "raw")),
+                                                  Compile(1, g, ObjIdx("A", "raw")), Invoke(2, ObjIdx("A", "raw")), Invoke(1, ObjIdx("A", "struct"))>>)
+    \o Prod2(FailSrcs, AfterSrcs, LAMBDA f, g : <<DebugS(f, ObjIdx("A", "struct")), DebugS(g, ObjIdx("A", "struct"))>>)
 
 \* "hosts": unusual host values (catalogued by name in the harness) through Eval / Compile / Debug.
 \* What the API must return for each: a value or an error -- and which.
